@@ -196,3 +196,8 @@ Definition conduct_result (sc : sched) (o : outcome) (verdict cleanup : err) : e
 
 (** exit status: run() returns the error, main exits 1 iff it is non-nil *)
 Definition exit_nonzero (e : err) : bool := match e with [] => false | _ => true end.
+
+(** collectErrors: the results of concurrent commands (cleanups of all actors,
+    the lines of a scene, the spotlights), in completion order, are combined;
+    nil results are skipped, nothing else is. *)
+Definition collect_errors (rs : list err) : err := List.concat rs.
